@@ -24,7 +24,7 @@ ASSUMPTIONS = ["from_string/str round trip only for length <= 10; from_integer o
 REQUIRED = ["calls.Perm.of_length", "calls.Perm.up_to_length", "calls.Perm.first", "calls.Perm.unrank", "calls.Perm.rank",
             "calls.Perm.to_standard", "calls.Perm.from_string", "calls.Perm.from_integer", "calls.Perm.one_based",
             "calls.Perm.from_iterable_validated", "calls.MeshPatt.unrank", "calls.MeshPatt.rank", "calls.MeshPatt.of_length",
-            "lru.evictions_forced", "interleaved.rounds", "std.with_ties", "validated.rejected", "unrank.domain_rejected"]
+            "lru.evictions_forced", "interleaved.rounds", "unrank.block_boundaries", "std.with_ties", "validated.rejected", "unrank.domain_rejected"]
 MIN_NONTRIVIAL = 1000
 CTX = None
 MON = None
@@ -481,10 +481,27 @@ def run(ctx, spec):
             if c < 0.25:
                 n = rng.randint(9, 20)
                 chk_rank(ctx, rng.sample(range(n), n))
+                if rng.random() < 0.02:
+                    n = rng.choice([255, 256, 257, 258, 300])  # around CPython's small-int cache and far beyond enumeration
+                    q = list(range(n))
+                    i, j = rng.sample(range(n), 2)
+                    q[i], q[j] = q[j], q[i]
+                    chk_rank(ctx, q)
+                    ctx.count("rank.long_perms")
             elif c < 0.4:
                 n = rng.randint(0, 20)
                 chk_unrank(ctx, rng.randrange(math.factorial(n)), n)
                 chk_unrank(ctx, rng.randrange(total_before(n + 1) + 1), None)
+                # block boundaries: ranks k*m! - 1, k*m!, k*m! + 1 (last / first permutation with a given prefix)
+                n = rng.randint(10, 26)
+                m = rng.randint(1, n - 1)
+                k = rng.randint(1, math.factorial(n) // math.factorial(m))
+                for r in (k * math.factorial(m) - 1, k * math.factorial(m), k * math.factorial(m) + 1, math.factorial(n) - 1):
+                    if 0 <= r < math.factorial(n):
+                        chk_unrank(ctx, r, n)
+                        chk_unrank(ctx, total_before(n) + r, None)
+                        chk_rank(ctx, list(oracle_unrank_in_length(r, n)))
+                ctx.count("unrank.block_boundaries")
             elif c < 0.8:
                 n = rng.randint(0, 9)
                 pool = rng.choice([
